@@ -153,10 +153,10 @@ def prove_identity(goal, hyps, tier="quick", name="", timeout_ms=None):
                 r.detail = "case %s: %s" % (lits, r.detail)
                 return r
             continue
-        g2, h2 = _eliminate_equalities(g, list(hyps) + lits)
-        if z3.is_true(z3.simplify(g2)):
-            continue
-        l, r_ = g2.children()
+        # denominators are examined BEFORE hypotheses of the form x == t are substituted: substituting T := 0 would let
+        # `0 * (w / T)` collapse to 0 and hide a division by zero that float64 turns into nan
+        h2 = list(hyps) + lits
+        l, r_ = g.children()
         ln, ld = _frac_multiset(l)
         rn, rd = _frac_multiset(r_)
         dens = []
@@ -185,6 +185,8 @@ def prove_identity(goal, hyps, tier="quick", name="", timeout_ms=None):
                 rr.detail = "cannot show denominator %s != 0 in case %s: %s" % (d, lits, rr.detail)
                 return rr
         poly = ln * _prod(rd) - rn * _prod(ld)
+        pg, h2 = _eliminate_equalities(poly == 0, h2)
+        poly = pg.children()[0] if z3.is_eq(pg) else poly
         ps = z3.simplify(poly, som=True)
         if z3.is_rational_value(ps) and ps.numerator_as_long() == 0:
             detail.append("case %s: polynomial identity by normalisation" % (lits,))
